@@ -568,7 +568,7 @@ func c04StoreFn(c *Ctx, k *core, f *ssa.Function) {
 					continue
 				}
 				oc := litField(al, "oldConfig")
-				if oc == nil || !isCallToFn(oc, k.view) {
+				if oc == nil || !k.isCurrentConfig(oc, 0) {
 					continue
 				}
 				nc := litField(al, "newConfig")
